@@ -2,6 +2,19 @@
 
 include!("../../generated/generated_cpal.rs");
 
+impl Cpal {
+    fn compute_version(&self) -> u16 {
+        // Using version 1 only fields?
+        if self.palette_types_array.is_some()
+            || self.palette_labels_array.is_some()
+            || self.palette_entry_labels_array.is_some()
+        {
+            return 1;
+        }
+        0
+    }
+}
+
 #[cfg(test)]
 mod tests {
 
